@@ -459,7 +459,7 @@ func main() {
 	}
 
 	// FloodWait control flow on the fake clock: scripts of advances / cancellation
-	for i := 0; i < c.N(36, 1500); i++ {
+	for i := 0; i < c.N(36, 400); i++ {
 		n := int64([]int{0, 1, 2, 3, 30, 59, 3600, 86400}[r.Intn(8)])
 		due := (n + 1) * 1000000000
 		kind := []string{"FLOOD_WAIT_%d", "FLOOD_PREMIUM_WAIT_%d", "%d_FLOOD_WAIT", "FLOOD_%d_WAIT"}[r.Intn(4)]
@@ -495,7 +495,7 @@ func main() {
 	scriptCase("script-corpus", "FLOOD_WAIT", true, 0, false, []int64{999999999, 1}) // no argument: Argument 0, waits the margin only
 
 	// generated messages of the stated shape
-	for i := 0; i < c.N(1200, 30000); i++ {
+	for i := 0; i < c.N(1200, 12000); i++ {
 		k := r.Range(1, 5)
 		words := make([]string, k)
 		for j := range words {
@@ -524,7 +524,7 @@ func main() {
 	}
 	// out of shape and arbitrary
 	alphabet := "ABCXYZ019__\x00\xff az٣"
-	for i := 0; i < c.N(500, 12000); i++ {
+	for i := 0; i < c.N(500, 5000); i++ {
 		var msg []byte
 		switch r.Intn(4) {
 		case 0: // random parts incl. empty ones, several numbers
